@@ -2,7 +2,7 @@
    C10/ and followed by Print Assumptions.  [kf] is the key function inducing the
    comparator (any total preorder); arrays are lists of element ids; the repaired
    code is modelled (fixes/C10-*.patch). *)
-From MV Require Import C10.Model C10.Proofs.
+From MV Require Import C10.Model C10.Proofs C10.Steps C10.ProofsGen C10.ProofsGenSort C10.ProofsSteps.
 Local Open Scope Z_scope.
 
 (* ------------------------------------------------------------------ heap *)
@@ -71,6 +71,49 @@ Theorem heap_empty_yields_nothing : forall kf h, hsize h = 0%nat ->
   heap_root h = None /\ heap_extract kf h = Some (h, None).
 Proof. exact heap_root_empty. Qed.
 Print Assumptions heap_empty_yields_nothing.
+
+(* clear, WHATEVER the free callbacks are (both NULL included): the result is the valid EMPTY heap of the
+   same capacity and storage - so every theorem of this file applies to any later use of the heap and
+   nothing of the old content can come back (contents = [], every old slot holds NULL, root / extract
+   yield nothing); the nodes handed to the free callbacks are exactly the old entries, each once *)
+Theorem heap_clear_gives_valid_empty_heap : forall kf h, heap_ok kf h ->
+  let '(h', freed) := heap_clear h in
+  heap_ok kf h' /\ hsize h' = 0%nat /\ hcap h' = hcap h /\ length (nodes h') = length (nodes h) /\
+  contents h' = [] /\ freed = contents h /\
+  (forall j, (1 <= j <= hsize h)%nat -> getn (nodes h') j = null_node) /\
+  heap_root h' = None /\ heap_extract kf h' = Some (h', None).
+Proof. exact heap_clear_ok. Qed.
+Print Assumptions heap_clear_gives_valid_empty_heap.
+
+(* the free callbacks are a per-call choice, each may be NULL.  For EVERY choice: remove at any position
+   1..size yields the same valid heap as heap_inv_remove_any_position and hands to each callback that
+   was passed exactly the key / value of the entry that left (nothing to one that was not); a node
+   outside 1..size is refused; clear yields the valid empty heap and hands every entry, once, in slot
+   order, to the callbacks that were passed *)
+Theorem heap_remove_any_callbacks : forall kf cbk cbv h idx, heap_ok kf h -> (1 <= idx <= hsize h)%nat ->
+  exists h', heap_remove_cb kf cbk cbv h idx = Some (h', Some (handed cbk cbv (getn (nodes h) idx))) /\
+    heap_remove kf h idx = Some (h', Some (getn (nodes h) idx)) /\
+    heap_ok kf h' /\ hsize h' = (hsize h - 1)%nat /\ hcap h' = hcap h /\
+    Permutation (contents h) (getn (nodes h) idx :: contents h').
+Proof. exact heap_remove_cb_ok. Qed.
+Print Assumptions heap_remove_any_callbacks.
+Theorem heap_remove_any_callbacks_outside : forall kf cbk cbv h idx, (idx = 0 \/ hsize h < idx)%nat ->
+  heap_remove_cb kf cbk cbv h idx = Some (h, None).
+Proof. exact heap_remove_cb_outside. Qed.
+Print Assumptions heap_remove_any_callbacks_outside.
+Theorem heap_clear_any_callbacks : forall kf cbk cbv h, heap_ok kf h ->
+  fst (heap_clear_cb cbk cbv h) = fst (heap_clear h) /\
+  snd (heap_clear_cb cbk cbv h) = map (handed cbk cbv) (contents h) /\
+  heap_ok kf (fst (heap_clear_cb cbk cbv h)) /\ hsize (fst (heap_clear_cb cbk cbv h)) = 0%nat /\
+  hcap (fst (heap_clear_cb cbk cbv h)) = hcap h /\ contents (fst (heap_clear_cb cbk cbv h)) = [].
+Proof. exact heap_clear_cb_ok. Qed.
+Print Assumptions heap_clear_any_callbacks.
+
+(* destroy releases exactly the entries, each once (the heap is dead until the next init, which
+   heap_init_valid covers) *)
+Theorem heap_destroy_releases_contents : forall h, heap_destroy h = contents h.
+Proof. exact heap_destroy_ok. Qed.
+Print Assumptions heap_destroy_releases_contents.
 
 (* find returns a node of the heap whose key compares equal, or NULL only when none does *)
 Theorem heap_find_locates : forall kf h data,
@@ -149,3 +192,164 @@ Print Assumptions quick_sorted.
 Theorem quick_permutation : forall kf a p, quick_sort kf a = Some p -> Permutation a p.
 Proof. exact quick_permutation_l. Qed.
 Print Assumptions quick_permutation.
+
+(* ------------------------------------------------ second tie: the C text of this run, segment by segment *)
+(* Every loop of heap.c / sort.c is cut at its head and its exit into loop-free segments (entry -> first loop
+   head, ONE ITERATION, exit -> next cut / return), each re-translated from the clang AST of the current C text
+   into gen/Params_C10.v (lib/props/c10_slice.py).  Each theorem: the generated segment equals the model's
+   segment (C10/Steps.v) - tag of the cut reached, both arrays pointwise, the state vector, the library calls
+   with their arguments, the arrays handed to them - for every comparator whose SIGN follows the keys and all
+   indices below 2^62.  C10/ProofsSteps.v ties the model's segments to the fuelled loops of C10/Model.v. *)
+Theorem gen_insert_pre_matches_model : forall (cmp : Z -> Z -> Z) (nk nv : Z -> Z) (cap size r1 : Z) (nk1 nv1 : Z -> Z) (size1 cap1 : Z), 0 <= cap < 4611686018427387904 -> 0 <= size < 4611686018427387904 -> 0 <= size1 < 4611686018427387904 -> res_eq (gen_insert_pre cmp nk nv cap size r1 nk1 nv1 size1 cap1) (ref_insert_pre nk nv cap size r1 nk1 nv1 size1 cap1).
+Proof. exact gen_insert_pre_eq. Qed.
+Print Assumptions gen_insert_pre_matches_model.
+Theorem gen_insert_step_matches_model : forall (cmp : Z -> Z -> Z) (kf : Z -> Z), cmp_ok cmp kf -> forall (nk nv : Z -> Z) (idx key : Z), 0 <= idx < 4611686018427387904 -> res_eq (gen_insert_step cmp nk nv idx key) (ref_insert_step kf nk nv idx key).
+Proof. exact gen_insert_step_eq. Qed.
+Print Assumptions gen_insert_step_matches_model.
+Theorem gen_insert_post_matches_model : forall (cmp : Z -> Z -> Z) (nk nv : Z -> Z) (idx cap size key value : Z), res_eq (gen_insert_post cmp nk nv idx cap size key value) (ref_insert_post nk nv idx cap size key value).
+Proof. exact gen_insert_post_eq. Qed.
+Print Assumptions gen_insert_post_matches_model.
+Theorem gen_extract_pre_matches_model : forall (cmp : Z -> Z -> Z) (nk nv : Z -> Z) (size okey ovalue : Z), 0 <= size < 4611686018427387904 -> res_eq (gen_extract_pre cmp nk nv size okey ovalue) (ref_extract_pre nk nv size okey ovalue).
+Proof. exact gen_extract_pre_eq. Qed.
+Print Assumptions gen_extract_pre_matches_model.
+Theorem gen_extract_step_matches_model : forall (cmp : Z -> Z -> Z) (kf : Z -> Z), cmp_ok cmp kf -> forall (nk nv : Z -> Z) (i size last : Z), 0 <= i < 4611686018427387904 -> 0 <= size < 4611686018427387904 -> 0 <= last < 4611686018427387904 -> res_eq (gen_extract_step cmp nk nv i size last) (ref_extract_step kf nk nv i size last).
+Proof. exact gen_extract_step_eq. Qed.
+Print Assumptions gen_extract_step_matches_model.
+Theorem gen_extract_post_matches_model : forall (cmp : Z -> Z -> Z) (nk nv : Z -> Z) (i size okey ovalue last : Z), res_eq (gen_extract_post cmp nk nv i size okey ovalue last) (ref_extract_post nk nv i size okey ovalue last).
+Proof. exact gen_extract_post_eq. Qed.
+Print Assumptions gen_extract_post_matches_model.
+Theorem gen_remove_pre_matches_model : forall (cmp : Z -> Z -> Z) (nk nv : Z -> Z) (node size : Z), - (4611686018427387904) < node < 4611686018427387904 -> 0 <= size < 4611686018427387904 -> res_eq (gen_remove_pre cmp nk nv node size) (ref_remove_pre nk nv node size).
+Proof. exact gen_remove_pre_eq. Qed.
+Print Assumptions gen_remove_pre_matches_model.
+Theorem gen_remove_step_matches_model : forall (cmp : Z -> Z -> Z) (kf : Z -> Z), cmp_ok cmp kf -> forall (nk nv : Z -> Z) (idx last size : Z), 0 <= idx < 4611686018427387904 -> 0 <= size < 4611686018427387904 -> 0 <= last < 4611686018427387904 -> res_eq (gen_remove_step cmp nk nv idx last size) (ref_remove_step kf nk nv idx last size).
+Proof. exact gen_remove_step_eq. Qed.
+Print Assumptions gen_remove_step_matches_model.
+Theorem gen_remove_post_matches_model : forall (cmp : Z -> Z -> Z) (nk nv : Z -> Z) (idx size last : Z), res_eq (gen_remove_post cmp nk nv idx size last) (ref_remove_post nk nv idx size last).
+Proof. exact gen_remove_post_eq. Qed.
+Print Assumptions gen_remove_post_matches_model.
+Theorem gen_find_pre_matches_model : forall (cmp : Z -> Z -> Z) (nk nv : Z -> Z), res_eq (gen_find_pre cmp nk nv) (ref_find_pre nk nv).
+Proof. exact gen_find_pre_eq. Qed.
+Print Assumptions gen_find_pre_matches_model.
+Theorem gen_find_step_matches_model : forall (cmp : Z -> Z -> Z) (kf : Z -> Z), cmp_ok cmp kf -> forall (nk nv : Z -> Z) (i data size : Z), 0 <= i < 4611686018427387904 -> 0 <= size < 4611686018427387904 -> res_eq (gen_find_step cmp nk nv i data size) (ref_find_step kf nk nv i data size).
+Proof. exact gen_find_step_eq. Qed.
+Print Assumptions gen_find_step_matches_model.
+Theorem gen_find_post_matches_model : forall (cmp : Z -> Z -> Z) (nk nv : Z -> Z) (i : Z), res_eq (gen_find_post cmp nk nv i) (ref_find_post nk nv i).
+Proof. exact gen_find_post_eq. Qed.
+Print Assumptions gen_find_post_matches_model.
+Theorem gen_clear_pre_matches_model : forall (cmp : Z -> Z -> Z) (nk nv : Z -> Z) (size : Z), res_eq (gen_clear_pre cmp nk nv size) (ref_clear_pre nk nv size).
+Proof. exact gen_clear_pre_eq. Qed.
+Print Assumptions gen_clear_pre_matches_model.
+Theorem gen_clear_step_matches_model : forall (cmp : Z -> Z -> Z) (nk nv : Z -> Z) (i size : Z), 0 <= i < 4611686018427387904 -> 0 <= size < 4611686018427387904 -> res_eq (gen_clear_step cmp nk nv i size) (ref_clear_step nk nv i size).
+Proof. exact gen_clear_step_eq. Qed.
+Print Assumptions gen_clear_step_matches_model.
+Theorem gen_clear_post_matches_model : forall (cmp : Z -> Z -> Z) (nk nv : Z -> Z) (i : Z), res_eq (gen_clear_post cmp nk nv i) (ref_clear_post nk nv i).
+Proof. exact gen_clear_post_eq. Qed.
+Print Assumptions gen_clear_post_matches_model.
+Theorem gen_ins_pre_matches_model : forall (cmp : Z -> Z -> Z) (pa pb : Z -> Z), res_eq (gen_ins_pre cmp pa pb) (ref_ins_pre pa pb).
+Proof. exact gen_ins_pre_eq. Qed.
+Print Assumptions gen_ins_pre_matches_model.
+Theorem gen_ins_outer_step_matches_model : forall (cmp : Z -> Z -> Z) (pa pb : Z -> Z) (i count : Z), 0 <= i < 4611686018427387904 -> 0 <= count < 4611686018427387904 -> res_eq (gen_ins_outer_step cmp pa pb i count) (ref_ins_outer_step pa pb i count).
+Proof. exact gen_ins_outer_step_eq. Qed.
+Print Assumptions gen_ins_outer_step_matches_model.
+Theorem gen_ins_inner_step_matches_model : forall (cmp : Z -> Z -> Z) (kf : Z -> Z), cmp_ok cmp kf -> forall (pa pb : Z -> Z) (j tmp : Z), 0 <= j < 4611686018427387904 -> res_eq (gen_ins_inner_step cmp pa pb j tmp) (ref_ins_inner_step kf pa pb j tmp).
+Proof. exact gen_ins_inner_step_eq. Qed.
+Print Assumptions gen_ins_inner_step_matches_model.
+Theorem gen_ins_inner_post_matches_model : forall (cmp : Z -> Z -> Z) (pa pb : Z -> Z) (j tmp i : Z), 0 <= i < 4611686018427387904 -> res_eq (gen_ins_inner_post cmp pa pb j tmp i) (ref_ins_inner_post pa pb j tmp i).
+Proof. exact gen_ins_inner_post_eq. Qed.
+Print Assumptions gen_ins_inner_post_matches_model.
+Theorem gen_ins_outer_post_matches_model : forall (cmp : Z -> Z -> Z) (pa pb : Z -> Z) (i : Z), res_eq (gen_ins_outer_post cmp pa pb i) (ref_ins_outer_post pa pb i).
+Proof. exact gen_ins_outer_post_eq. Qed.
+Print Assumptions gen_ins_outer_post_matches_model.
+Theorem gen_shell_pre_matches_model : forall (cmp : Z -> Z -> Z) (pa pb : Z -> Z) (count : Z), 0 <= count < 4611686018427387904 -> res_eq (gen_shell_pre cmp pa pb count) (ref_shell_pre pa pb count).
+Proof. exact gen_shell_pre_eq. Qed.
+Print Assumptions gen_shell_pre_matches_model.
+Theorem gen_shell_gap_step_matches_model : forall (cmp : Z -> Z -> Z) (pa pb : Z -> Z) (inc : Z), 0 <= inc < 4611686018427387904 -> res_eq (gen_shell_gap_step cmp pa pb inc) (ref_shell_gap_step pa pb inc).
+Proof. exact gen_shell_gap_step_eq. Qed.
+Print Assumptions gen_shell_gap_step_matches_model.
+Theorem gen_shell_mid_step_matches_model : forall (cmp : Z -> Z -> Z) (pa pb : Z -> Z) (i inc count : Z), 0 <= i < 4611686018427387904 -> 0 <= count < 4611686018427387904 -> res_eq (gen_shell_mid_step cmp pa pb i inc count) (ref_shell_mid_step pa pb i inc count).
+Proof. exact gen_shell_mid_step_eq. Qed.
+Print Assumptions gen_shell_mid_step_matches_model.
+Theorem gen_shell_inner_step_matches_model : forall (cmp : Z -> Z -> Z) (kf : Z -> Z), cmp_ok cmp kf -> forall (pa pb : Z -> Z) (j inc tmp : Z), 0 <= j < 4611686018427387904 -> 0 <= inc < 4611686018427387904 -> res_eq (gen_shell_inner_step cmp pa pb j inc tmp) (ref_shell_inner_step kf pa pb j inc tmp).
+Proof. exact gen_shell_inner_step_eq. Qed.
+Print Assumptions gen_shell_inner_step_matches_model.
+Theorem gen_shell_inner_post_matches_model : forall (cmp : Z -> Z -> Z) (pa pb : Z -> Z) (j tmp i : Z), 0 <= i < 4611686018427387904 -> res_eq (gen_shell_inner_post cmp pa pb j tmp i) (ref_shell_inner_post pa pb j tmp i).
+Proof. exact gen_shell_inner_post_eq. Qed.
+Print Assumptions gen_shell_inner_post_matches_model.
+Theorem gen_shell_mid_post_matches_model : forall (cmp : Z -> Z -> Z) (pa pb : Z -> Z) (i inc : Z), 0 <= inc < 4611686018427387904 -> res_eq (gen_shell_mid_post cmp pa pb i inc) (ref_shell_mid_post pa pb i inc).
+Proof. exact gen_shell_mid_post_eq. Qed.
+Print Assumptions gen_shell_mid_post_matches_model.
+Theorem gen_shell_gap_post_matches_model : forall (cmp : Z -> Z -> Z) (pa pb : Z -> Z) (inc : Z), res_eq (gen_shell_gap_post cmp pa pb inc) (ref_shell_gap_post pa pb inc).
+Proof. exact gen_shell_gap_post_eq. Qed.
+Print Assumptions gen_shell_gap_post_matches_model.
+Theorem gen_hsort_pre_matches_model : forall (cmp : Z -> Z -> Z) (pa pb : Z -> Z) (count r1 : Z), 0 <= count < 4611686018427387904 -> res_eq (gen_hsort_pre cmp pa pb count r1) (ref_hsort_pre pa pb count r1).
+Proof. exact gen_hsort_pre_eq. Qed.
+Print Assumptions gen_hsort_pre_matches_model.
+Theorem gen_hsort_fill_step_matches_model : forall (cmp : Z -> Z -> Z) (pa pb : Z -> Z) (i count : Z), 0 <= i < 4611686018427387904 -> 0 <= count < 4611686018427387904 -> res_eq (gen_hsort_fill_step cmp pa pb i count) (ref_hsort_fill_step pa pb i count).
+Proof. exact gen_hsort_fill_step_eq. Qed.
+Print Assumptions gen_hsort_fill_step_matches_model.
+Theorem gen_hsort_fill_post_matches_model : forall (cmp : Z -> Z -> Z) (pa pb : Z -> Z) (i : Z), res_eq (gen_hsort_fill_post cmp pa pb i) (ref_hsort_fill_post pa pb i).
+Proof. exact gen_hsort_fill_post_eq. Qed.
+Print Assumptions gen_hsort_fill_post_matches_model.
+Theorem gen_hsort_drain_step_matches_model : forall (cmp : Z -> Z -> Z) (pa pb : Z -> Z) (i count key value : Z), 0 <= i < 4611686018427387904 -> 0 <= count < 4611686018427387904 -> res_eq (gen_hsort_drain_step cmp pa pb i count key value) (ref_hsort_drain_step pa pb i count key value).
+Proof. exact gen_hsort_drain_step_eq. Qed.
+Print Assumptions gen_hsort_drain_step_matches_model.
+Theorem gen_hsort_drain_post_matches_model : forall (cmp : Z -> Z -> Z) (pa pb : Z -> Z) (i : Z), res_eq (gen_hsort_drain_post cmp pa pb i) (ref_hsort_drain_post pa pb i).
+Proof. exact gen_hsort_drain_post_eq. Qed.
+Print Assumptions gen_hsort_drain_post_matches_model.
+Theorem gen_mrec_pre_matches_model : forall (cmp : Z -> Z -> Z) (pa pb : Z -> Z) (left right : Z) (a1 b1 a2 b2 : Z -> Z), 0 <= left < 4611686018427387904 -> 0 <= right < 4611686018427387904 -> res_eq (gen_mrec_pre cmp pa pb left right a1 b1 a2 b2) (ref_mrec_pre pa pb left right a1 b1 a2 b2).
+Proof. exact gen_mrec_pre_eq. Qed.
+Print Assumptions gen_mrec_pre_matches_model.
+Theorem gen_mrec_merge_step_matches_model : forall (cmp : Z -> Z -> Z) (kf : Z -> Z), cmp_ok cmp kf -> forall (pa pb : Z -> Z) (l r idx center right : Z), 0 <= l < 4611686018427387904 -> 0 <= r < 4611686018427387904 -> 0 <= idx < 4611686018427387904 -> 0 <= center < 4611686018427387904 -> 0 <= right < 4611686018427387904 -> res_eq (gen_mrec_merge_step cmp pa pb l r idx center right) (ref_mrec_merge_step kf pa pb l r idx center right).
+Proof. exact gen_mrec_merge_step_eq. Qed.
+Print Assumptions gen_mrec_merge_step_matches_model.
+Theorem gen_msort_pre_matches_model : forall (cmp : Z -> Z -> Z) (pa pb : Z -> Z) (count ok : Z) (m a2 : Z -> Z), 0 <= count < 4611686018427387904 -> res_eq (gen_msort_pre cmp pa pb count ok m a2) (ref_msort_pre pa pb count ok m a2).
+Proof. exact gen_msort_pre_eq. Qed.
+Print Assumptions gen_msort_pre_matches_model.
+Theorem gen_qrec_pre_matches_model : forall (cmp : Z -> Z -> Z) (kf : Z -> Z), cmp_ok cmp kf -> forall (pa pb : Z -> Z) (left right : Z) (ains : Z -> Z), 0 <= left < 4611686018427387904 -> 0 <= right < 4611686018427387904 -> left <= right + 1 -> res_eq (gen_qrec_pre cmp pa pb left right ains) (ref_qrec_pre kf (Z.of_nat quick_sort_cutoff) pa pb left right ains).
+Proof. exact gen_qrec_pre_eq. Qed.
+Print Assumptions gen_qrec_pre_matches_model.
+Theorem gen_qrec_part_step_matches_model : forall (cmp : Z -> Z -> Z) (pa pb : Z -> Z) (i j pivot : Z), res_eq (gen_qrec_part_step cmp pa pb i j pivot) (ref_qrec_part_step pa pb i j pivot).
+Proof. exact gen_qrec_part_step_eq. Qed.
+Print Assumptions gen_qrec_part_step_matches_model.
+Theorem gen_qrec_up_step_matches_model : forall (cmp : Z -> Z -> Z) (kf : Z -> Z), cmp_ok cmp kf -> forall (pa pb : Z -> Z) (i pivot : Z), 0 <= i < 4611686018427387904 -> res_eq (gen_qrec_up_step cmp pa pb i pivot) (ref_qrec_up_step kf pa pb i pivot).
+Proof. exact gen_qrec_up_step_eq. Qed.
+Print Assumptions gen_qrec_up_step_matches_model.
+Theorem gen_qrec_up_post_matches_model : forall (cmp : Z -> Z -> Z) (pa pb : Z -> Z) (i j pivot : Z), res_eq (gen_qrec_up_post cmp pa pb i j pivot) (ref_qrec_up_post pa pb i j pivot).
+Proof. exact gen_qrec_up_post_eq. Qed.
+Print Assumptions gen_qrec_up_post_matches_model.
+Theorem gen_qrec_down_step_matches_model : forall (cmp : Z -> Z -> Z) (kf : Z -> Z), cmp_ok cmp kf -> forall (pa pb : Z -> Z) (j pivot : Z), 0 < j < 4611686018427387904 -> res_eq (gen_qrec_down_step cmp pa pb j pivot) (ref_qrec_down_step kf pa pb j pivot).
+Proof. exact gen_qrec_down_step_eq. Qed.
+Print Assumptions gen_qrec_down_step_matches_model.
+Theorem gen_qrec_down_post_matches_model : forall (cmp : Z -> Z -> Z) (pa pb : Z -> Z) (j i : Z), 0 <= i < 4611686018427387904 -> 0 <= j < 4611686018427387904 -> res_eq (gen_qrec_down_post cmp pa pb j i) (ref_qrec_down_post pa pb j i).
+Proof. exact gen_qrec_down_post_eq. Qed.
+Print Assumptions gen_qrec_down_post_matches_model.
+Theorem gen_qrec_part_post_matches_model : forall (cmp : Z -> Z -> Z) (pa pb : Z -> Z) (i j left right : Z) (a4 a5 : Z -> Z), 0 < i < 4611686018427387904 -> 0 < right < 4611686018427387904 -> res_eq (gen_qrec_part_post cmp pa pb i j left right a4 a5) (ref_qrec_part_post pa pb i j left right a4 a5).
+Proof. exact gen_qrec_part_post_eq. Qed.
+Print Assumptions gen_qrec_part_post_matches_model.
+Theorem gen_qsort_pre_matches_model : forall (cmp : Z -> Z -> Z) (pa pb : Z -> Z) (count : Z) (a1 : Z -> Z), 0 <= count < 4611686018427387904 -> res_eq (gen_qsort_pre cmp pa pb count a1) (ref_qsort_pre pa pb count a1).
+Proof. exact gen_qsort_pre_eq. Qed.
+Print Assumptions gen_qsort_pre_matches_model.
+
+(* ------------------------------------------------ the model's loops are the iterations of those segments *)
+(* one unfolding of the fuelled fixpoint of C10/Model.v = one application of the ref_ step of C10/Steps.v on the
+   arrays that represent the list (rep / repa): when the step continues, the fixpoint continues on a list its
+   arrays represent with its new loop variable; when it exits, the fixpoint returns the list that the ref_ post
+   segment's arrays represent *)
+Theorem model_sift_up_is_insert_step : forall (kf : nat -> Z) (f : nat) (ns : list node) (idx k v : nat) (nk nv : Z -> Z) (cap size : Z), rep ns nk nv -> (idx < length ns)%nat -> let r := ref_insert_step (kfz kf) nk nv (Z.of_nat idx) (Z.of_nat k) in g_tag r = 10 /\ (exists idx' : nat, g_vals r = [Z.of_nat idx'] /\ (idx' < length ns)%nat /\ (exists ns' : list node, rep ns' (g_a r) (g_b r) /\ length ns' = length ns /\ sift_up kf (S f) ns idx k v = sift_up kf f ns' idx' k v)) \/ g_tag r = 50 /\ g_vals r = [Z.of_nat idx] /\ (let p := ref_insert_post (g_a r) (g_b r) (Z.of_nat idx) cap size (Z.of_nat k) (Z.of_nat v) in g_tag p = 0 /\ (exists ns' : list node, rep ns' (g_a p) (g_b p) /\ sift_up kf (S f) ns idx k v = Some ns')).
+Proof. exact sift_up_is_insert_step. Qed.
+Print Assumptions model_sift_up_is_insert_step.
+Theorem model_sift_down_is_extract_step : forall (kf : nat -> Z) (f : nat) (ns : list node) (i lidx sz : nat) (nk nv : Z -> Z) (ok ov : Z), rep ns nk nv -> (lidx < length ns)%nat -> (sz < lidx)%nat -> (i < length ns)%nat -> let last := getn ns lidx in let r := ref_extract_step (kfz kf) nk nv (Z.of_nat i) (Z.of_nat sz) (Z.of_nat lidx) in g_tag r = 10 /\ (exists c : nat, g_vals r = [Z.of_nat c] /\ (c < length ns)%nat /\ (exists ns' : list node, rep ns' (g_a r) (g_b r) /\ length ns' = length ns /\ getn ns' lidx = last /\ sift_down kf (S f) ns i last sz = sift_down kf f ns' c last sz)) \/ g_tag r = 50 /\ g_vals r = [Z.of_nat i] /\ (let p := ref_extract_post (g_a r) (g_b r) (Z.of_nat i) (Z.of_nat sz) ok ov (Z.of_nat lidx) in g_tag p = 0 /\ (exists ns' : list node, rep ns' (g_a p) (g_b p) /\ sift_down kf (S f) ns i last sz = Some ns')).
+Proof. exact sift_down_is_extract_step. Qed.
+Print Assumptions model_sift_down_is_extract_step.
+Theorem model_remove_loop_is_remove_step : forall (kf : nat -> Z) (f : nat) (ns : list node) (idx lidx sz : nat) (nk nv : Z -> Z), rep ns nk nv -> (lidx < length ns)%nat -> (sz < lidx)%nat -> (1 <= idx <= sz)%nat -> let last := getn ns lidx in let r := ref_remove_step (kfz kf) nk nv (Z.of_nat idx) (Z.of_nat lidx) (Z.of_nat sz) in g_tag r = 10 /\ (exists c : nat, g_vals r = [Z.of_nat c] /\ (1 <= c <= sz)%nat /\ (exists ns' : list node, rep ns' (g_a r) (g_b r) /\ length ns' = length ns /\ getn ns' lidx = last /\ remove_loop kf (S f) ns idx last sz = remove_loop kf f ns' c last sz)) \/ g_tag r = 50 /\ g_vals r = [Z.of_nat idx] /\ (let p := ref_remove_post (g_a r) (g_b r) (Z.of_nat idx) (Z.of_nat sz) (Z.of_nat lidx) in g_tag p = 0 /\ (exists ns' : list node, rep ns' (g_a p) (g_b p) /\ remove_loop kf (S f) ns idx last sz = Some ns')).
+Proof. exact remove_loop_is_remove_step. Qed.
+Print Assumptions model_remove_loop_is_remove_step.
+Theorem model_ins_inner_is_inner_step : forall (kf : nat -> Z) (tmp base j : nat) (a : list nat) (pa pb : Z -> Z) (i : Z), repa base a pa -> (base + j < length a)%nat -> let r := ref_ins_inner_step (kfz kf) pa pb (Z.of_nat j) (Z.of_nat tmp) in g_tag r = 11 /\ (exists j' : nat, j = S j' /\ g_vals r = [Z.of_nat j'] /\ (exists a' : list nat, repa base a' (g_a r) /\ length a' = length a /\ ins_inner kf tmp base j a = ins_inner kf tmp base j' a')) \/ g_tag r = 51 /\ g_vals r = [Z.of_nat j] /\ (let p := ref_ins_inner_post (g_a r) (g_b r) (Z.of_nat j) (Z.of_nat tmp) i in g_tag p = 10 /\ (exists a' : list nat, repa base a' (g_a p) /\ ins_inner kf tmp base j a = a')).
+Proof. exact ins_inner_is_inner_step. Qed.
+Print Assumptions model_ins_inner_is_inner_step.
+Theorem model_scan_up_is_up_step : forall (kf : nat -> Z) (f : nat) (a : list nat) (pa pb : Z -> Z) (pivot i : nat), repa 0 a pa -> (S i < length a)%nat -> let r := ref_qrec_up_step (kfz kf) pa pb (Z.of_nat i) (Z.of_nat pivot) in g_vals r = [Z.of_nat (S i)] /\ g_a r = pa /\ (g_tag r = 11 /\ scan_up kf (S f) a pivot i = scan_up kf f a pivot (S i) \/ g_tag r = 51 /\ scan_up kf (S f) a pivot i = Some (S i)).
+Proof. exact scan_up_is_up_step. Qed.
+Print Assumptions model_scan_up_is_up_step.
+Theorem model_scan_down_is_down_step : forall (kf : nat -> Z) (a : list nat) (pa pb : Z -> Z) (pivot j : nat), repa 0 a pa -> (S j <= length a)%nat -> let r := ref_qrec_down_step (kfz kf) pa pb (Z.of_nat (S j)) (Z.of_nat pivot) in g_vals r = [Z.of_nat j] /\ g_a r = pa /\ (g_tag r = 12 /\ scan_down kf a pivot (S j) = scan_down kf a pivot j \/ g_tag r = 52 /\ scan_down kf a pivot (S j) = Some j).
+Proof. exact scan_down_is_down_step. Qed.
+Print Assumptions model_scan_down_is_down_step.
